@@ -90,10 +90,9 @@ def edits(rng, L):
                               pr=[dict(name="sid", kind="coded", bytepos=0, bl=8, value=0xC5, semantic=None, bt=1)]))
     out.append(("add", e, dict(new=["svcNew"])))
     for i, s in enumerate(base["services"]):
-        if len(base["services"]) > 1:
-            e = copy.deepcopy(base)
-            del e["services"][i]
-            out.append(("delete", e, dict(deleted=[s["name"]])))
+        e = copy.deepcopy(base)
+        del e["services"][i]        # also the last remaining service
+        out.append(("delete", e, dict(deleted=[s["name"]])))
         e = copy.deepcopy(base)
         e["services"][i]["name"] = s["name"] + "_renamed"
         out.append(("rename", e, dict(renamed=[[s["name"] + "_renamed", s["name"]]])))
